@@ -18,7 +18,7 @@ EXPLANATION = (
     'not decided.')
 ASSUMPTIONS = ['text-mode open() uses strict error handling (locale codec)',
                'A5: KeyError/IndexError/AttributeError are not modelled']
-MINIMUM = {'R19.1': 8, 'R19.2': 1, 'R19.3': 2}
+MINIMUM = {'R19.1': 8, 'R19.2': 1, 'R19.3': 2, 'R19.4': 4}
 
 
 def entry_iterations(b):
@@ -82,6 +82,21 @@ def check(ctx):
             if not any_raise:
                 ctx.ob('R19.1', '%s: entry iteration without fallible primitive' % cmd, True,
                        node=it)
+        # ---- R19.4 what is learnt from one entry does not leak into the next
+        leaks = {}
+        for it in its:
+            head = [p for p, l in g.pred[it.id] if g.n(p).kind == 'loop']
+            if not head:
+                continue
+            region = g.reachable_from(it.id, blocked=[head[0]])
+            for n, o in carried_state_writes(b, region):
+                leaks.setdefault((n.func, n.src), n)
+        ctx.ob('R19.4', '%s: handling one entry writes nothing that outlives its iteration' % cmd,
+               not leaks, node=list(leaks.values())[0] if leaks else its[0],
+               message='%s: while handling one .trashinfo the code writes into an object that '
+                       'lives across entries (%s): a value parsed from one entry (e.g. its '
+                       'date) can be taken for the next, malformed one' % (
+                           cmd, list(leaks)[0][1] if leaks else ''))
         # ---- R19.2
         for s in b.nodes('sort'):
             key = s.data['key']
